@@ -59,6 +59,8 @@ func c05R1(c *Ctx) {
 					rel = ">=FIX.4.2"
 				} else if d.Implies(func(a *Atom) bool { return a.Rel == "<=" && a.L.Kind == "field" && a.L.Field == fBegin && constStr(a.R) == "FIX.4.2" }) {
 					rel = "<=FIX.4.2"
+				} else if d.Implies(func(a *Atom) bool { return a.Rel == "<" && a.R.Kind == "field" && a.R.Field == fBegin && constStr(a.L) == "FIX.4.2" }) {
+					rel = ">FIX.4.2"
 				}
 				emitted = append(emitted, pair{n, rel})
 			}
@@ -109,7 +111,7 @@ func c05R1(c *Ctx) {
 		if emit == acc {
 			return true
 		}
-		return emit == "<FIX.4.2" && acc == "<=FIX.4.2"
+		return emit == "<FIX.4.2" && acc == "<=FIX.4.2" || emit == ">FIX.4.2" && acc == ">=FIX.4.2"
 	}
 	for _, e := range emitted {
 		ok := false
